@@ -684,10 +684,11 @@ impl NodeRecordStore {
             }
         }
 
-        // Store the new record to the cache
-        self.records_cache.push_back(key.clone(), r.clone());
-
         self.prune_records_if_needed(key)?;
+
+        // Store the new record to the cache (only once it is accepted: a refused record must not be
+        // served from the cache, nor make a later put of the same content return early as stored)
+        self.records_cache.push_back(key.clone(), r.clone());
 
         let filename = Self::generate_filename(key);
         let file_path = self.config.storage_dir.join(&filename);
